@@ -146,15 +146,22 @@ def run(chk, prog):
     ev2 = Evaluator(prog)
     ev2.opaque_methods.add("primal_flag")
     r = ev2.eval_fn(M.methods["flatten"], M.module, M)
-    got = Arms()
-    for conds, ret in r.returns:
-        pos = [t for t, p in conds if p]
-        if any(is_call(t, "concrete_false") for t in pos):
-            got["F"] = ret
-        elif any(is_call(t, "concrete_true") for t in pos):
-            got["T"] = ret
-        else:
-            got["traced"] = ret
+    # by kind of flag (literal False / literal True / array), whatever tests the kind: FlagOp.concrete_false / concrete_true, `is`, literal patterns
+    from ..rules import resolve_all
+    PFm = ("call", ("attr", SELF, "primal_flag"), (), ())
+    got = {}
+    for kind_ in ("F", "T", "traced"):
+        def atom_(c, kind_=kind_):
+            if (is_call(c, "concrete_true") or is_call(c, "concrete_false")) and c[2] == (PFm,):
+                return kind_ != "traced" and (kind_ == "T") == is_call(c, "concrete_true")
+            if is_t(c, "is") and c[1] == PFm and c[2] in (C(True), C(False)):
+                return kind_ != "traced" and (kind_ == "T") == c[2][1]
+            if is_t(c, "cmp") and c[1] == "==" and c[2] == PFm and c[3] in (C(True), C(False)):
+                return kind_ != "traced" and (kind_ == "T") == c[3][1]
+            if is_t(c, "isinst") and c[1] == PFm and c[2] == "bool":
+                return kind_ != "traced"
+            return None
+        got[kind_] = resolve_all(r.ret, atom_)
     okf = got.get("F") == C(None) and got.get("T") == ("attr", SELF, "value") and got.get("traced") == SELF
     chk.require(okf, "MASK-TABLE", "Mask.flatten", "concrete False -> None, concrete True -> value, else self", derived={k: show(v) for k, v in got.items()}.__str__(), expected="None / self.value / self", where=W("flatten"))
     # unmask
